@@ -502,7 +502,7 @@ func (w *Worker) nativeCompile(src string, o CompileOpts, values map[int]string)
 func (w *Worker) RunCase(cs *Case, rep *Report) {
 	// development aid: VERIF_ONLY=<substring> runs only the cases whose name
 	// contains it (never set by a registered command)
-	if only := os.Getenv("VERIF_ONLY"); only != "" && !strings.Contains(cs.Name, only) {
+	if only := os.Getenv("VERIF_ONLY"); only != "" && !strings.Contains(cs.Name, only) && !strings.Contains(cs.Name, "witness") {
 		return
 	}
 	// enough is enough: once 25 counterexamples are confirmed the verdict is
